@@ -59,9 +59,6 @@ func musCases(env *core.Env, emitted []core.Case) []core.Case {
 func rupCases(env *core.Env, emitted []core.Case) []core.Case {
 	var res []core.Case
 	for i, e := range emitted {
-		if env.Quick() && i%3 != int(env.Seed%3) {
-			continue
-		}
 		entry := "reader"
 		if i%2 == 0 {
 			entry = "chan"
